@@ -132,7 +132,10 @@ func c20Attempt(p c20Case, wd time.Duration, tight, alone bool) *c20Run {
 	for i, b := range p.hist {
 		hist[i] = make([]tcpassembly.Reassembly, len(b))
 		for j, e := range b {
-			hist[i][j] = tcpassembly.Reassembly{Bytes: append([]byte(nil), e.bytes...), Skip: e.skip}
+			// Start/End/Seen as the assembler sets them: it reads End of the last entry again after
+			// Reassembled returns (tcpassembly sendToConnection), so the reader must leave them alone
+			hist[i][j] = tcpassembly.Reassembly{Bytes: append([]byte(nil), e.bytes...), Skip: e.skip,
+				Start: i == 0 && j == 0, End: i == len(p.hist)-1 && j == len(b)-1, Seen: time.Unix(1600000000+int64(i), int64(j))}
 			total += len(e.bytes)
 			entries++
 		}
@@ -155,11 +158,20 @@ func c20Attempt(p c20Case, wd time.Duration, tight, alone bool) *c20Run {
 			f()
 			return true
 		}
-		for _, b := range hist {
+		for bi, b := range hist {
 			b := b
 			if !call(func() { rs.Reassembled(b) }) {
 				status = "panic"
 				break
+			}
+			for j := range b {
+				wantS, wantE := bi == 0 && j == 0, bi == len(hist)-1 && j == len(b)-1
+				if b[j].Start != wantS || b[j].End != wantE || b[j].Skip != p.hist[bi][j].skip || !b[j].Seen.Equal(time.Unix(1600000000+int64(bi), int64(j))) {
+					run.mu.Lock()
+					run.oracle = append(run.oracle, fmt.Sprintf("C20:delivery-metadata-altered\tbatch %d entry %d: Start/End/Skip/Seen of the assembler's Reassembly changed during Reassembled (Start=%v End=%v Skip=%d)", bi, j, b[j].Start, b[j].End, b[j].Skip))
+					run.mu.Unlock()
+					break
+				}
 			}
 			atomic.AddInt32(&run.ret, 1)
 			atomic.AddInt64(&run.prog, 1)
